@@ -182,7 +182,7 @@ func (t *fnTrans) unop(x *ssa.UnOp) {
 		}
 		v := t.load(t.st, lv)
 		out := t.define(x, x.Type(), v.C)
-		t.assume(t.valueFacts(t.st, out))
+		t.assume(t.valueFactsTop(t.readTop(t.st, lvalHeaps(lv)), out))
 	case token.NOT:
 		t.vals[x] = Val{x.Type(), []string{not(t.val(x.X).C[0])}}
 	case token.SUB:
